@@ -1,6 +1,6 @@
 SPECIFICATION TSpec
 CONSTANTS
-  Anys = {1, 2, 3}
-  Types = {"Small", "Big", "STM"}
+  Anys = {1, 2, 3, 4, 5}
+  Types = {"Small", "Big", "STM", "NC", "Int", "Str", "CStr", "Fn", "Sp", "Ov", "Nest"}
 POSTCONDITION TraceAccepted
 CHECK_DEADLOCK FALSE
